@@ -65,7 +65,14 @@ def r7_map_call(run, tree):
     mf.check_map_direction_call(run, tree)
 
 
-RULES = [r6_norm_fresh, r1_axis_table, r2_constructor, r3_perpendicular, r4_handedness, r5_forms, r7_map_call]
+def r8_layer_data(run, tree):
+    run.rule("C18.R8", "the positions, masses and velocities 'top'/'side' are computed from are those the group holds when the layer is made (Datagroup.layer after a member was "
+             "replaced under its key; shared with C06.R1)", "D7 history fold of the Datagroup class", "", floor=10)
+    from . import core_folds as cf
+    cf.check_datagroup_histories(run, tree)
+
+
+RULES = [r6_norm_fresh, r1_axis_table, r2_constructor, r3_perpendicular, r4_handedness, r5_forms, r7_map_call, r8_layer_data]
 
 
 def t_all_spellings(run, tree):
